@@ -38,7 +38,8 @@ Inductive cop :=
 | CAdd (p : path) (v : Z)
 | CGetVal (p : path)            (* GetLeafValue = Get(path).Value() *)
 | CQuery (q : path)             (* Query; Walk has the same locking with q = [] *)
-| CDelete (q : path)
+| CDelete (q : path)             (* Delete as of repo commit 3480f62: per-node write locks *)
+| CDeleteUnlocked (q : path)     (* the code BEFORE 3480f62: root write lock only (defect C10_1) *)
 | CHValue (n : nat)             (* Leaf.Value through a retained handle to node n *)
 | CHUpdate (n : nat) (v : Z).   (* Leaf.Update through a retained handle to node n *)
 
@@ -56,6 +57,12 @@ Definition qitem := (nat * path * path)%type.
 Inductive ucont :=
 | UDone (r : cres)              (* return r *)
 | UVal (n : nat).               (* Get returned node n: call Value() on it *)
+
+(** one level of Delete's recursion: node [dn] (write-locked), the query for
+    its children, the child being processed, the children still to process,
+    the removed leaf paths collected so far (relative to [dn]) *)
+Record dframe := DF { dn : nat; dq : path; dcur : string;
+                      dtodo : list (string * nat); dacc : list path }.
 
 Inductive pc :=
 | PStart (o : cop)
@@ -90,7 +97,16 @@ Inductive pc :=
 | PQEnter (t : nat) (pre q : path) (acc : list (path * Z)) (fr : list (list qitem))
 | PQRead (t : nat) (pre q : path) (acc : list (path * Z)) (fr : list (list qitem))
 | PQVisit (pre : path) (v : Z) (acc : list (path * Z)) (fr : list (list qitem))
-| PQNext (acc : list (path * Z)) (fr : list (list qitem)).
+| PQNext (acc : list (path * Z)) (fr : list (list qitem))
+(* Delete with per-node locking (lockedDelete / internalDelete) *)
+| PLDel (q : path)                                   (* announce Lock(root) *)
+| PLDelAcq (q : path)                                (* acquire it *)
+| PLVisit (n : nat) (q : path) (fr : list dframe)    (* internalDelete entered on n (write-locked) *)
+| PLNext (fr : list dframe)                          (* loop over the children of the top frame *)
+| PLEnter (c : nat) (q : path) (fr : list dframe)    (* lockedDelete on child c: announce Lock *)
+| PLCAcq (c : nat) (q : path) (fr : list dframe)     (* acquire it *)
+| PLRet (del : bool) (ls : list path) (fr : list dframe)   (* internalDelete returns; Unlock (deferred) *)
+| PLBack (del : bool) (ls : list path) (fr : list dframe). (* back in the parent: delete(b, k), collect *)
 
 (** [top]: the API call this thread executes (never changes) *)
 Record thread := TH { top : cop; tpc : pc; held : list (nat * lmode) }.
@@ -238,6 +254,15 @@ Definition lockop_of (t : thread) : lockop :=
   | PQNext _ [] => LNone
   | PQNext _ ([] :: _) => LRel
   | PQNext _ ((_ :: _) :: _) => LNone
+  | PLDel _ => LReq 0%nat
+  | PLDelAcq _ => LAcq 0%nat
+  | PLVisit _ _ _ => LNone
+  | PLNext _ => LNone
+  | PLEnter c _ _ => LReq c
+  | PLCAcq c _ _ => LAcq c
+  | PLRet _ _ [] => LNone
+  | PLRet _ _ (_ :: _) => LRel
+  | PLBack _ _ _ => LNone
   end.
 
 (** program counter after a lock operation succeeded *)
@@ -258,6 +283,11 @@ Definition after_lock (p : pc) : pc :=
   | PDelAcq q => PDelCrit q
   | PQEnter t0 pre q acc fr => PQRead t0 pre q acc fr
   | PQNext acc (_ :: fr) => PQNext acc fr
+  | PLDel q => PLDelAcq q
+  | PLDelAcq q => PLVisit 0%nat q []
+  | PLEnter c q fr => PLCAcq c q fr
+  | PLCAcq c q fr => PLVisit c q fr
+  | PLRet d ls fr => PLBack d ls fr
   | other => other
   end.
 
@@ -268,7 +298,8 @@ Definition start_pc (h : heap) (o : cop) : pc :=
   | CAdd p v => PAddEnter 0%nat p v
   | CGetVal p => PGetEnter 0%nat p
   | CQuery q => PQEnter 0%nat [] q [] []
-  | CDelete q => PDel q
+  | CDelete q => PLDel q
+  | CDeleteUnlocked q => PDel q
   | CHValue n => if Nat.ltb n (List.length h) then PHVal n else PDone (XVal None)
   | CHUpdate n v => if Nat.ltb n (List.length h) then PHUpd n v else PDone XUnit
   end.
@@ -364,6 +395,10 @@ Definition local_step (h : heap) (p : pc) : heap * pc :=
       (h, PHRel (XVal (match get_cont h n with CLeaf v => Some v | _ => None end)))
   | PHUpdWrite n v => (set_cont h n (CLeaf v), PHRel XUnit)
   | PDelCrit q =>
+      (* the code before repo commit 3480f62 (defect C10_1, fixed): Delete
+         mutates and reads every descendant while holding the root write lock
+         only.  Reachable only from [CDeleteUnlocked]; kept as the regression
+         witness C10_handle_delete_race_refuted. *)
       let r := hdelete h q in (fst r, PUnwind (UDone (XPaths (snd r))))
   | PQRead t0 pre q acc fr =>
       let c := get_cont h t0 in
@@ -374,6 +409,46 @@ Definition local_step (h : heap) (p : pc) : heap * pc :=
   | PQVisit pre v acc fr => (h, PQNext (acc ++ [(pre, v)]) fr)
   | PQNext acc [] => (h, PDone (XLeaves acc))
   | PQNext acc (((c, pre, q) :: todo) :: fr) => (h, PQEnter c pre q acc (todo :: fr))
+  | PLVisit n q fr =>
+      (* internalDelete on n, which is write-locked *)
+      if heads_all q then
+        match get_cont h n with
+        | CBranch cs => (h, PLNext (DF n (strip_glob q) "" cs [] :: fr))
+        | CNil => (h, PLRet false [] fr)
+        | CLeaf _ =>
+            match strip_glob q with
+            | [] => (h, PLRet true [[]] fr)
+            | _ :: _ => (h, PLRet false [] fr)
+            end
+        end
+      else
+        match q, get_cont h n with
+        | k :: r, CBranch cs =>
+            match assoc k cs with
+            | Some c => (h, PLNext (DF n r "" [(k, c)] [] :: fr))
+            | None => (h, PLRet false [] fr)
+            end
+        | _, _ => (h, PLRet false [] fr)
+        end
+  | PLNext (f :: fr) =>
+      match dtodo f with
+      | [] =>
+          (* len(b) == 0 *)
+          (h, PLRet (match get_cont h (dn f) with CBranch cs => is_nil cs | _ => false end)
+                    (dacc f) fr)
+      | (k, c) :: rest => (h, PLEnter c (dq f) (DF (dn f) (dq f) k rest (dacc f) :: fr))
+      end
+  | PLRet del ls [] =>
+      (* back in DeleteConditional / WalkDeleted: clear the root *)
+      (if del then set_cont h 0%nat CNil else h, PUnwind (UDone (XPaths ls)))
+  | PLBack del ls (f :: fr) =>
+      ((if del then
+          match get_cont h (dn f) with
+          | CBranch cs => set_cont h (dn f) (CBranch (adel (dcur f) cs))
+          | _ => h
+          end
+        else h),
+       PLNext (DF (dn f) (dq f) (dcur f) (dtodo f) (dacc f ++ map (cons (dcur f)) ls) :: fr))
   | other => (h, other)
   end.
 
@@ -505,6 +580,10 @@ Definition accesses (h : heap) (p : pc) : list access :=
   | PDelCrit _ =>
       (0%nat, AField, true) ::
       flat_map (fun n => [(n, AField, false); (n, AMap, true)]) (reachable h)
+  | PLVisit n _ _ => [(n, AField, false); (n, AMap, false)]
+  | PLNext (f :: _) => match dtodo f with [] => [(dn f, AMap, false)] | _ => [] end
+  | PLBack _ _ (f :: _) => [(dn f, AMap, true)]
+  | PLRet _ _ [] => [(0%nat, AField, true)]
   | _ => []
   end.
 
